@@ -135,7 +135,7 @@ theorem im_eq_zero_of_star {z : Cx F} (h : star z = z) : z.im = 0 := by
 theorem eq_ofRe_of_star {z : Cx F} (h : star z = z) : z = ofRe z.re :=
   ext' rfl (im_eq_zero_of_star h)
 
-theorem star_ofRe (a : F) : star (ofRe a : Cx F) = ofRe a := by apply ext' <;> simp
+theorem star_ofRe (a : F) : star (ofRe a : Cx F) = ofRe a := ext' rfl (by simp)
 
 theorem ofRe_mul (a b : F) : (ofRe a * ofRe b : Cx F) = ofRe (a * b) := by apply ext' <;> simp
 theorem ofRe_zero : (ofRe 0 : Cx F) = 0 := rfl
